@@ -9,6 +9,8 @@ def np_array(ctx, xs):
         for i, x in enumerate(xs):
             a[i] = x
         return a
+    if xs and all(isinstance(x, int) for x in xs):
+        return _np.array(list(xs))
     return _np.array([float(x) for x in xs])
 
 
